@@ -1,0 +1,52 @@
+//go:build verif
+
+// Package verifexport re-exports a few internal functions for the model-based
+// verification harness kept outside this repository. It is compiled only with
+// the `verif` build tag.
+package verifexport
+
+import (
+	"iter"
+
+	iec "github.com/nspcc-dev/neofs-node/internal/ec"
+	neofscrypto "github.com/nspcc-dev/neofs-sdk-go/crypto"
+	"github.com/nspcc-dev/neofs-sdk-go/object"
+)
+
+// ECRule is an alias of the internal EC rule type.
+type ECRule = iec.Rule
+
+// ECNodeSequenceForPart is [iec.NodeSequenceForPart].
+func ECNodeSequenceForPart(partIdx, totalParts, nodes int) iter.Seq[int] {
+	return iec.NodeSequenceForPart(partIdx, totalParts, nodes)
+}
+
+// ECEncode is [iec.Encode].
+func ECEncode(rule ECRule, data []byte) ([][]byte, []string, error) {
+	return iec.Encode(rule, data)
+}
+
+// ECDecode is [iec.Decode].
+func ECDecode(rule ECRule, dataLen uint64, parts [][]byte) ([]byte, error) {
+	return iec.Decode(rule, dataLen, parts)
+}
+
+// ECConcatDataParts is [iec.ConcatDataParts].
+func ECConcatDataParts(rule ECRule, dataLen uint64, parts [][]byte) []byte {
+	return iec.ConcatDataParts(rule, dataLen, parts)
+}
+
+// ECDecodeRange is [iec.DecodeRange].
+func ECDecodeRange(rule ECRule, fromIdx, toIdx int, parts [][]byte) error {
+	return iec.DecodeRange(rule, fromIdx, toIdx, parts)
+}
+
+// ECDecodeIndexes is [iec.DecodeIndexes].
+func ECDecodeIndexes(rule ECRule, parts [][]byte, idxs []int) error {
+	return iec.DecodeIndexes(rule, parts, idxs)
+}
+
+// ECFormObjectForECPart is [iec.FormObjectForECPart] with the part info passed as two ints.
+func ECFormObjectForECPart(signer neofscrypto.Signer, parent object.Object, part []byte, ruleIdx, partIdx int) (object.Object, error) {
+	return iec.FormObjectForECPart(signer, parent, part, iec.PartInfo{RuleIndex: ruleIdx, Index: partIdx})
+}
